@@ -260,7 +260,9 @@ ALLOC = re.compile(r"(Vec::<T>::with_capacity$|Vec::<T, A>::(with_capacity_in|re
 WIRE32 = re.compile(r"(types::read_int$|types::read_int_length$|Buf::get_u32$|Buf::get_i32$|Buf::try_get_u32$|Buf::try_get_i32$|types::read_long$|Buf::get_u64$|Buf::get_i64$"
                     r"|unsigned_vint_decode$|vint_decode$|u32::from_be_bytes$|i32::from_be_bytes$)")
 WIRE16 = re.compile(r"(types::read_short$|types::read_short_length$|Buf::get_u16$|Buf::get_i16$|Buf::try_get_u16$|Buf::get_u8$|types::read_u8)")
-LENLIKE = re.compile(r"(::len$|::remaining$|::size_hint$|::count$|::capacity$|rows_remaining$|columns_remaining$|::len_utf8$|max_compress_len$|PtrMetadata)")
+LENLIKE = re.compile(r"(::len$|::remaining$|::capacity$|::len_utf8$|max_compress_len$|PtrMetadata)")
+# lengths that are COUNTS announced by the peer rather than sizes of data already in memory
+COUNTLIKE = re.compile(r"(ExactSizeIterator::len$|::size_hint$|rows_remaining$|columns_remaining$|Iterator::count$|Iterator<.*>::len$|Iterator.*>::size_hint$)")
 
 REVIEWED_ALLOC = {}
 
@@ -276,8 +278,96 @@ def size_operand(call):
     return call.args[1] if len(call.args) > 1 else call.args[0]
 
 
+STD_PREFIX = ("core::", "alloc::", "std::", "bytes::", "&[", "[", "&str", "str", "hashbrown::", "smallvec::", "itertools::")
+
+
+def _strip_ref(t):
+    t = t.strip()
+    while t.startswith("&"):
+        t = t[1:].lstrip()
+        if t.startswith("'"):
+            t = t.split(" ", 1)[1] if " " in t else t
+        if t.startswith("mut "):
+            t = t[4:]
+    return t
+
+
+def count_call_origin(facts, cg, b, c, callers_index, depth, seen):
+    """origin of the value returned by an item-count call (ExactSizeIterator::len, size_hint, rows_remaining ...)"""
+    recv = c.args[0] if c.args else None
+    rty = _strip_ref(b.local_ty(recv[1][0])) if recv and recv[0] in ("c", "m") and not recv[1][1] else ""
+    if rty.startswith(STD_PREFIX) and "impl " not in rty:
+        return {"len"}
+    nm = c.name or ""
+    cb = facts.body(nm) if nm else None
+    if cb is None or depth >= 6:
+        return {"wire32(count via %s of %s)@%s" % ((c.decl or nm).split("::")[-1], rty.split("<")[0].split("::")[-1] or "generic iterator", fn_short(b.path))}
+    # classify what the workspace implementation returns
+    out = set()
+    rets = [s for bb in cb.live_blocks for s in cb.stmts(bb) if s[0] == "A" and s[1][0] == 0]
+    rcalls = [x for bb, x in cb.calls() if bb in cb.live_blocks and x.dest[0] == 0]
+    for s in rets:
+        for l in _rv_locals_c08(s[2]):
+            out |= classify_origin(facts, cg, cb, ["c", [l, []]], callers_index, depth + 1, seen)
+        out |= _field_reads(facts, cg, cb, s[2], callers_index, depth, seen)
+    for x in rcalls:
+        out |= classify_origin(facts, cg, cb, ["c", [0, []]], callers_index, depth + 1, seen) if False else set()
+        nm2 = x.name or x.decl or ""
+        if COUNTLIKE.search(nm2) or COUNTLIKE.search(x.decl or ""):
+            out |= count_call_origin(facts, cg, cb, x, callers_index, depth + 1, seen)
+        elif LENLIKE.search(nm2):
+            out.add("len")
+    return out or {"unknown(count)"}
+
+
+def _rv_locals_c08(rv):
+    from ..util import _rv_locals
+    return _rv_locals(rv)
+
+
+def _field_reads(facts, cg, b, rv, callers_index, depth, seen):
+    """origins of `self.<field>` values read by an rvalue: every constructor site of that ADT is classified"""
+    from ..dataflow import adt_of_type
+    out = set()
+
+    def places(x, acc):
+        if isinstance(x, list):
+            if len(x) == 2 and isinstance(x[0], int) and isinstance(x[1], list) and x[1]:
+                acc.append(x)
+            for y in x:
+                places(y, acc)
+    acc = []
+    places(rv, acc)
+    for pl in acc:
+        flds = [e for e in pl[1] if isinstance(e, list) and e[0] == "f"]
+        if not flds or pl[0] != 1:
+            continue
+        adt = adt_of_type(b.local_ty(pl[0]))
+        fname = flds[0][2]
+        if not adt or not fname or (adt, fname) in seen or depth >= 6:
+            continue
+        seen.add((adt, fname))
+        for cb in facts.bodies.mentioning(json_key(adt)):
+            for bb in cb.live_blocks:
+                for s in cb.stmts(bb):
+                    if s[0] == "A" and s[2][0] == "agg" and s[2][1][0] == "adt" and s[2][1][1] == adt and fname in s[2][1][4]:
+                        op = s[2][2][s[2][1][4].index(fname)]
+                        out |= classify_origin(facts, cg, cb, op, callers_index, depth + 1, seen)
+                    # later stores to the field
+                    if s[0] == "A" and s[1][1] and adt_of_type(cb.local_ty(s[1][0])) == adt:
+                        f2 = [e for e in s[1][1] if isinstance(e, list) and e[0] == "f"]
+                        if f2 and f2[0][2] == fname and s[2][0] == "use":
+                            out |= classify_origin(facts, cg, cb, s[2][1], callers_index, depth + 1, seen)
+    return out
+
+
+def json_key(path):
+    import json
+    return json.dumps(path)
+
+
 def classify_origin(facts, cg, b, operand, callers_index, depth=0, seen=None):
-    """set of origin classes of a size operand: const, len, wire16, wire32, unknown"""
+    """set of origin classes of a size operand: const, len, wire16, wire32..., unknown"""
     seen = seen if seen is not None else set()
     if operand[0] == "k":
         return {"const"}
@@ -285,13 +375,14 @@ def classify_origin(facts, cg, b, operand, callers_index, depth=0, seen=None):
     out = set()
     for c in calls:
         nm = c.name or c.decl or ""
-        if WIRE32.search(nm):
+        if COUNTLIKE.search(nm) or COUNTLIKE.search(c.decl or ""):
+            out |= count_call_origin(facts, cg, b, c, callers_index, depth, seen)
+        elif WIRE32.search(nm):
             out.add("wire32@" + fn_short(b.path))
         elif WIRE16.search(nm):
             out.add("wire16")
         elif LENLIKE.search(nm):
             out.add("len")
-    # struct fields read in the slice: who stores them?
     for l in locs:
         for d in b.defs.get(l, []):
             rv = d[3] if d[0] == "stmt" else None
@@ -299,12 +390,14 @@ def classify_origin(facts, cg, b, operand, callers_index, depth=0, seen=None):
                 out.add("len")
     # parameters / upvars in the slice: go to callers
     params = [l for l in locs if 1 <= l <= b.argc]
+    if operand[0] in ("c", "m") and 1 <= operand[1][0] <= b.argc:
+        params.append(operand[1][0])
+    params = sorted(set(params))
     if params and depth < 6:
-        key = (b.path, tuple(sorted(params)))
+        key = (b.path, tuple(params))
         if key not in seen:
             seen.add(key)
             if b.kind == "Closure":
-                # captured variables: look at the creator's aggregate operands
                 creator = facts.body(b.parent)
                 if creator is not None and 1 in params:
                     for bb in creator.live_blocks:
@@ -325,6 +418,14 @@ def classify_origin(facts, cg, b, operand, callers_index, depth=0, seen=None):
     if not out:
         out.add("local")
     return out
+
+
+def _flat(x):
+    if isinstance(x, list):
+        for y in x:
+            if isinstance(y, list):
+                yield y
+                yield from _flat(y)
 
 
 def guarded_by_remaining(b, df, call, operand):
